@@ -64,37 +64,49 @@ static void tree_case(const std::vector<double> &rates, bool exact) {
   printf("%s\n", o.str().c_str());
 }
 
-static void marcus_case(Rng &r, bool equal_reorg) {
-  double kT = 0.0005 + r.unit() * 0.003;                 // hartree (158 K .. 1100 K)
-  Eigen::Vector3d field((r.unit() - 0.5) * 2e-4, (r.unit() - 0.5) * 2e-4, (r.unit() - 0.5) * 2e-4);
-  if (r.coin(1, 5)) field.setZero();
+static void marcus_run(int sk, double e1, double e2, double unx1, double uxn1, double unx2, double uxn2, double lo,
+                       const Eigen::Vector3d &R, const Eigen::Vector3d &field, double kT, double j2, bool equal_reorg) {
   Rate_Engine eng(kT, field);
-  QMStateType st = r.coin() ? QMStateType::Electron : QMStateType::Hole;
+  QMStateType st = sk == 0 ? QMStateType::Electron : sk == 1 ? QMStateType::Hole : sk == 2 ? QMStateType::Singlet : QMStateType::Triplet;
   Segment s1("a", 0), s2("b", 1);
-  double e1 = (r.unit() - 0.5) * 0.02, e2 = (r.unit() - 0.5) * 0.02;
-  double unx1 = 0.002 + r.unit() * 0.01, uxn1 = 0.002 + r.unit() * 0.01;
-  double unx2 = equal_reorg ? unx1 : 0.002 + r.unit() * 0.01, uxn2 = equal_reorg ? uxn1 : 0.002 + r.unit() * 0.01;
   s1.setEMpoles(st, e1); s2.setEMpoles(st, e2);
   s1.setU_xX_nN(0.0, st); s2.setU_xX_nN(0.0, st);
   s1.setU_nX_nN(unx1, st); s1.setU_xN_xX(uxn1, st);
   s2.setU_nX_nN(unx2, st); s2.setU_xN_xX(uxn2, st);
-  Eigen::Vector3d R((r.unit() - 0.5) * 20, (r.unit() - 0.5) * 20, (r.unit() - 0.5) * 20);
   QMPair pair(0, &s1, &s2, R);
-  double lo = equal_reorg ? 0.0 : r.unit() * 0.001;
   pair.setLambdaO(lo, st);
-  double j2 = std::ldexp(1.0 + r.unit(), -(int)r.range(10, 40));
   pair.setJeff2(j2, st);
-  Rate_Engine::PairRates pr = eng.Rate(pair, st);
-  pair.setJeff2(2 * j2, st);
-  Rate_Engine::PairRates pr2 = eng.Rate(pair, st);
-  double reorg12 = pair.getReorg12(st) + lo, reorg21 = pair.getReorg21(st) - lo;
-  double direct = eng.Marcusrate(j2, pair.getdE12(st), reorg12);
-  printf("C14 rates %d %s %s %s %s %s %s %s %s %s %s %s %s %s %s %s %s %s %s %s %s %s\n", st == QMStateType::Electron ? -1 : 1,
+  Rate_Engine::PairRates pr, pr2;
+  double direct = 0;
+  try {
+    pr = eng.Rate(pair, st);
+    pair.setJeff2(2 * j2, st);
+    pr2 = eng.Rate(pair, st);
+    direct = eng.Marcusrate(j2, pair.getdE12(st), pair.getReorg12(st) + lo);
+  } catch (std::exception &) {
+    pr.rate12 = pr.rate21 = pr2.rate12 = pr2.rate21 = direct = std::nan("");
+  }
+  printf("C14 rates %s %s %s %s %s %s %s %s %s %s %s %s %s %s %s %s %s %s %s %s %s %s %s\n", sk == 0 ? "-1" : sk == 1 ? "1" : sk == 2 ? "0s" : "0t",
          dexact(tools::conv::Pi).c_str(), dexact(tools::conv::hbar).c_str(), dexact(tools::conv::ev2hrt).c_str(),
-         dexact(s1.getSiteEnergy(st)).c_str(), dexact(s2.getSiteEnergy(st)).c_str(), dexact(reorg12).c_str(), dexact(reorg21).c_str(),
+         dexact(s1.getSiteEnergy(st)).c_str(), dexact(s2.getSiteEnergy(st)).c_str(), dexact(pair.getReorg12(st)).c_str(), dexact(pair.getReorg21(st)).c_str(), dexact(lo).c_str(),
          dexact(R.x()).c_str(), dexact(R.y()).c_str(), dexact(R.z()).c_str(), dexact(field.x()).c_str(), dexact(field.y()).c_str(),
          dexact(field.z()).c_str(), dexact(kT).c_str(), dexact(j2).c_str(), dexact(pr.rate12).c_str(), dexact(pr.rate21).c_str(),
          dexact(pr2.rate12).c_str(), dexact(pr2.rate21).c_str(), dexact(direct).c_str(), equal_reorg ? "1 0" : "0 0");
+}
+
+static void marcus_case(Rng &r, bool equal_reorg) {
+  double kT = 0.0005 + r.unit() * 0.003;                 // hartree (158 K .. 1100 K)
+  Eigen::Vector3d field((r.unit() - 0.5) * 2e-4, (r.unit() - 0.5) * 2e-4, (r.unit() - 0.5) * 2e-4);
+  if (r.coin(1, 5)) field.setZero();
+  int sk = (int)r.below(4);                              // electron, hole, singlet, triplet
+  double e1 = (r.unit() - 0.5) * 0.02, e2 = (r.unit() - 0.5) * 0.02;
+  double unx1 = 0.002 + r.unit() * 0.01, uxn1 = 0.002 + r.unit() * 0.01;
+  double unx2 = equal_reorg ? unx1 : 0.002 + r.unit() * 0.01, uxn2 = equal_reorg ? uxn1 : 0.002 + r.unit() * 0.01;
+  Eigen::Vector3d R((r.unit() - 0.5) * 20, (r.unit() - 0.5) * 20, (r.unit() - 0.5) * 20);
+  // outer-sphere reorganisation energy of the pair: one number, common to both directions
+  double lo = r.coin(1, 3) ? 0.0 : r.unit() * 0.0015;
+  double j2 = std::ldexp(1.0 + r.unit(), -(int)r.range(10, 40));
+  marcus_run(sk, e1, e2, unx1, uxn1, unx2, uxn2, lo, R, field, kT, j2, equal_reorg);
 }
 
 int main(int argc, char **argv) {
@@ -106,7 +118,14 @@ int main(int argc, char **argv) {
     while (std::getline(std::cin, line)) {
       if (line.empty() || line[0] == '#') continue;
       std::vector<std::string> t = split_ws(line);
-      if (t.size() < 4 || t[0] != "C14" || t[1] != "tree") continue;   // rates lines are regenerated by the random stream
+      if (t.size() >= 47 && t[0] == "C14" && t[1] == "rates") {
+        // rates: the inputs of the line are fed back (inner12 = U_nX_nN(1) + U_xN_xX(2): the second summand is set to zero)
+        auto d = [&](size_t k) { return dparse(t[3 + 2 * k], t[4 + 2 * k]); };
+        int sk = t[2] == "-1" ? 0 : t[2] == "1" ? 1 : t[2] == "0s" ? 2 : 3;
+        marcus_run(sk, d(3), d(4), d(5), d(6), 0.0, 0.0, d(7), Eigen::Vector3d(d(8), d(9), d(10)), Eigen::Vector3d(d(11), d(12), d(13)), d(14), d(15), t[45] == "1");
+        continue;
+      }
+      if (t.size() < 4 || t[0] != "C14" || t[1] != "tree") continue;
       size_t n = (size_t)atol(t[3].c_str());
       std::vector<double> rates;
       for (size_t i = 0; i < n && 5 + 2 * i < t.size(); i++) rates.push_back(dparse(t[4 + 2 * i], t[5 + 2 * i]));
